@@ -5,6 +5,7 @@ import (
 	"fmt"
 	"io"
 	"os"
+	"runtime"
 )
 
 type DirectoryFileWriter struct {
@@ -18,7 +19,7 @@ func NewDirectoryFileWriter(outputDir string) *DirectoryFileWriter {
 	}
 }
 
-func (writer *DirectoryFileWriter) WriteFile(file *File) error {
+func (writer *DirectoryFileWriter) WriteFile(file *File) (err error) {
 	path := fmt.Sprintf("%s/%s", writer.outputDir, file.Name)
 
 	if writer.WillWriteFile != nil {
@@ -30,7 +31,28 @@ func (writer *DirectoryFileWriter) WriteFile(file *File) error {
 		return err
 	}
 
-	file.Component.WriteHTMLTo(out)
+	// The components do not hand the error of a failed write (a full disk)
+	// back through every level. They panic with it (see appendString). It is
+	// the error of this file.
+	defer func() {
+		if r := recover(); r != nil {
+			out.Close()
+
+			writeErr, isError := r.(error)
+			if _, isRuntimeError := r.(runtime.Error); !isError || isRuntimeError {
+				panic(r)
+			}
+
+			err = writeErr
+		}
+	}()
+
+	_, err = file.Component.WriteHTMLTo(out)
+	if err != nil {
+		out.Close()
+
+		return err
+	}
 
 	return out.Close()
 }
